@@ -8,5 +8,6 @@ CONSTANTS
   MaxBlockSize = 7788
   TimeoutPerChunk = TRUE
   SerErrorsFatal = FALSE
+  VersionSkew = 0
   Streams <- StreamsConnProbe
 INVARIANTS CTypeOK ClosedOnRefusal
